@@ -119,9 +119,9 @@ def build():
     E2U = CV_UNITS + ['internal/debug.c']
     E2X = {'atomic_hooks': {'pre': 'vf_env', 'write': 'vf_guar'}, 'noop': ['emit_print', 'emit_c'], 'max_cells': 400, 'tls_init': {'waiter_for_thread': ['MEW']}}
     # one context (R=1), every loop unrolled U times: with a single thread there is nothing to interleave, the environment acts inside the hooks
-    for fn in ['h_lock', 'h_rlock', 'h_trylock', 'h_rtrylock', 'h_unlock', 'h_runlock', 'h_unlock_nowake', 'h_mu_wait', 'h_cv_wait', 'h_debug']:
+    for fn in ['h_lock', 'h_rlock', 'h_trylock', 'h_rtrylock', 'h_unlock', 'h_runlock', 'h_unlock_nowake', 'h_mu_wait', 'h_cv_wait', 'h_debug', 'h_cv_signal', 'h_cv_debug']:
         for U in (2, 3):
-            sc = add('e2_%s_U%d' % (fn, U), 'e2_word.c', [fn], 1, E2U, excl=ONLY_MU, extra=E2X, pools={'extra_waiters': 0}, timeout=1800, unroll={'*': U},
+            sc = add('e2_%s_U%d' % (fn, U), 'e2_word.c', [fn], 1, E2U, excl=ONLY_MU, extra=E2X, pools={'extra_waiters': 0}, timeout=1800, unroll={'*': U, 'setup': 3, 'setup_cv': 3, 'rely_ok': 3, 'emit_word': 10, 'emit_waiters': 4},
                      defines=['VF_NO_DEADLOCK_CHECK'])
     return S
 
